@@ -37,14 +37,24 @@ Definition parse_radix (base max : Z) (ds : list Z) : option Z :=
 Definition checked_pow10 (e : Z) : option Z := if e <=? 19 then Some (10 ^ e) else None.
 Definition checked_mul64 (a b : Z) : option Z := if a * b <=? u64_max then Some (a * b) else None.
 
+(* Code variants (fix candidates in .cache/prompts/C09-{2,3,4}-fix.diff); false = the code before
+   the repair, true = the repaired code:
+     fx_zero  lower_int_literal: a zero mantissa with an exponent yields 0 without computing 10^e  (C09-4)
+     fx_i128  get_max_int_size: IInt(128) -> u64::MAX instead of i64::MAX                           (C09-2)
+     fx_isize get_max_int_size: IInt(255) -> i64::MAX instead of None                              (C09-3) *)
+Record variant := mk_variant { fx_zero : bool; fx_i128 : bool; fx_isize : bool }.
+Definition v_orig : variant := mk_variant false false false.
+Definition v_fixed : variant := mk_variant true true true.
+
 (* IntValue::Dec: mantissa, optional exponent after the first 'e'/'E' *)
-Definition lower_dec (mant : list dch) (exp : option (list dch)) : option Z :=
+Definition lower_dec (V : variant) (mant : list dch) (exp : option (list dch)) : option Z :=
   match parse_radix 10 u64_max (strip mant) with
   | None => None
   | Some base =>
       match exp with
       | None => Some base
       | Some e =>
+          if fx_zero V && (base =? 0) then Some 0 else
           match parse_radix 10 u32_max (strip e) with
           | None => None
           | Some ev =>
@@ -112,19 +122,21 @@ Definition lower_char (l : list comp) : Z * list char_diag :=
 Inductive ity := IT (sg : bool) (w : Z).
 
 (* ty.rs get_max_int_size *)
-Definition max_int_size (t : ity) : option Z :=
+Definition max_int_size (V : variant) (t : ity) : option Z :=
   match t with
   | IT true w =>
       if w =? 8 then Some 127 else if w =? 16 then Some 32767 else if w =? 32 then Some i32_max
-      else if (w =? 64) || (w =? 128) then Some i64_max else None
+      else if w =? 64 then Some i64_max
+      else if w =? 128 then Some (if fx_i128 V then u64_max else i64_max)
+      else if (w =? 255) && fx_isize V then Some i64_max else None
   | IT false w =>
       if w =? 8 then Some 255 else if w =? 16 then Some 65535 else if w =? 32 then Some u32_max
       else if (w =? 64) || (w =? 128) then Some u64_max else None
   end.
 
 (* expect_match / replace_weak_tys: IntTooBigForType iff num > max *)
-Definition accepted (t : ity) (n : Z) : bool :=
-  match max_int_size t with Some m => n <=? m | None => true end.
+Definition accepted (V : variant) (t : ity) (n : Z) : bool :=
+  match max_int_size V t with Some m => n <=? m | None => true end.
 
 (* convert.rs finalize_int: final (signed, bits); pointer width 64 *)
 Definition final_ty (t : ity) : bool * Z :=
